@@ -720,6 +720,11 @@ class Machine:
         if m:
             w = INT_W[m.group(1)]; sg = m.group(1)[0] == 'i'
             return (2 ** (w - 1) - 1 if sg else 2 ** w - 1) if m.group(2) == 'MAX' else (-(2 ** (w - 1)) if sg else 0)
+        m = re.match(r'^(?:core::num::<impl )?(u8|u16|u32|u64|usize|i8|i16|i32|i64|i128|u128|isize)>?::(MAX|MIN|BITS)$', c)
+        if m:
+            w = INT_W[m.group(1)]; sg = m.group(1)[0] == 'i'
+            if m.group(2) == 'BITS': return w
+            return (2 ** (w - 1) - 1 if sg else 2 ** w - 1) if m.group(2) == 'MAX' else (-(2 ** (w - 1)) if sg else 0)
         if c.startswith('"'): return Ref(Cell(Str(_unescape(c))))
         if c.startswith('b"'): return Ref(Cell(VecV(list(_unescape_bytes(c[1:])))))
         if c.startswith("'"): return ord(_unescape('"' + c[1:-1] + '"'))
